@@ -171,6 +171,13 @@ class Agent:
             self.log.append({"version": msg["version"], "community": msg["community"], **msg["pdu"]})
             r = self.answer_pdu(msg["pdu"])
             out = {"version": msg["version"], "community": msg["community"], **r}
+            if getattr(self, "v1_strict", False) and msg["version"] == 0:
+                # RFC 1157 4.1.3: an SNMPv1 agent has no exception values — the first binding it cannot
+                # serve makes the whole response noSuchName(2) with its index, the bindings echoed
+                for k, (_o, v) in enumerate(out["varbinds"]):
+                    if v in (EOM, ["noSuchObject"], ["noSuchInstance"]):
+                        out["a"], out["b"], out["varbinds"] = 2, k + 1, list(msg["pdu"]["varbinds"])
+                        break
             if self.hook:
                 out = self.hook(self, msg, out) or out
             self.resp_log.append(out)
